@@ -103,6 +103,9 @@ def case_c01(rep, spec):
     if F32:
         if z["bisect"]:
             return          # the search tolerance (1e-7) is the resolution of float32: the float64 pass judges the inverter
+        if spec.get("cls") == "LeakyTanh" and spec.get("regime") == "corner":
+            return          # max_val = 20: in float32 tanh(x) = 1.0 for every x >= 9.1 and the tail's intercept rounds to 1.0, so y = 1.0
+                            # has no recoverable preimage whatever the implementation (the conditioning at the returned point does not show it)
         z["name"] += " [float32]"
         z["points"] = [p for p in z["points"] if np.all(np.abs(np.asarray(p["x"], float)) <= 100.0)]
     for p in z["points"]:
